@@ -111,8 +111,14 @@ func (g *Gen) Scalar() *Node {
 		n.U = g.pickUint(64)
 	case "f32":
 		n.U = uint64(uint32(r.U64()))
+		if r.Intn(16) == 0 {
+			n.U = []uint64{0x80000000, 0, 0x7f800000, 0xff800000, 1, 0x7fc00000}[r.Intn(6)]
+		}
 	case "f64":
 		n.U = r.U64()
+		if r.Intn(16) == 0 {
+			n.U = []uint64{0x8000000000000000, 0, 0x7ff0000000000000, 0xfff0000000000000, 1}[r.Intn(5)]
+		}
 	case "bin64":
 		n.Data = g.binPayload(8)
 	case "bin128":
